@@ -60,6 +60,22 @@ pub open spec fn be32_val(s: Seq<u8>) -> int
 pub enum Poll<T> { Ready(T), Pending }
 pub struct Context { pub x: u8 }
 // A-core-05: `impl<T> From<T> for Option<T>` is Some
+// A-core-22: integer div_ceil (b != 0 is a panic condition, here a precondition)
+pub assume_specification[ u64::div_ceil ](a: u64, b: u64) -> (r: u64)
+    requires b != 0, ensures r as int == (a as int + b as int - 1) / (b as int);
+pub assume_specification[ u128::div_ceil ](a: u128, b: u128) -> (r: u128)
+    requires b != 0, ensures r as int == (a as int + b as int - 1) / (b as int);
+pub assume_specification[ usize::div_ceil ](a: usize, b: usize) -> (r: usize)
+    requires b != 0, ensures r as int == (a as int + b as int - 1) / (b as int);
+pub assume_specification[ u32::div_ceil ](a: u32, b: u32) -> (r: u32)
+    requires b != 0, ensures r as int == (a as int + b as int - 1) / (b as int);
+// A-core-23: Result::unwrap_or_default: the value, or T::default() (Option::unwrap_or_default is specified by vstd)
+pub uninterp spec fn default_of<T>() -> T;
+pub broadcast axiom fn axiom_default_u64() ensures #[trigger] default_of::<u64>() == 0u64;
+pub broadcast axiom fn axiom_default_usize() ensures #[trigger] default_of::<usize>() == 0usize;
+pub broadcast axiom fn axiom_default_u32() ensures #[trigger] default_of::<u32>() == 0u32;
+pub assume_specification<T: Default, E>[ Result::<T, E>::unwrap_or_default ](res: Result<T, E>) -> (r: T)
+    ensures res matches Ok(t) ==> r == t, res is Err ==> r == default_of::<T>();
 pub assume_specification<T>[<Option<T> as From<T>>::from](t: T) -> (r: Option<T>) ensures r == Some(t);
 // A-core-14: Option::replace stores the value and returns the old one
 pub assume_specification<T>[ Option::<T>::replace ](o: &mut Option<T>, v: T) -> (r: Option<T>)
